@@ -240,6 +240,11 @@ let show_outcome (id : String.t) (o : outcome) =
   | Diverged -> Printf.sprintf "%s\tout=diverged" id
 
 (* ---------- main ---------- *)
+let quirks = ref faithful
+let set_quirks (b : String.t) =
+  let g i = String.length b > i && b.[i] = '1' in
+  quirks := { q_lit_eof = g 0; q_stale_ctx = g 1; q_recover_scope = g 2; q_memo_nocharge = g 3 }
+
 let run_case (fuel : int) (sx : sexp) : String.t =
   match sx with
   | L [A "case"; A id;
@@ -249,6 +254,7 @@ let run_case (fuel : int) (sx : sexp) : String.t =
        L (A "blocks" :: blocks);
        L [A "input"; inp]] ->
       let cfg = {
+        cQ = !quirks;
         cU = ulib;
         cT = { t_optimize = bool_a opt; t_globalstate = bool_a gs; t_leftrec = bool_a lr; t_basiclatin = bool_a bl };
         cO = { o_memoize = bool_a memo; o_debug = bool_a dbg; o_stats = bool_a stats; o_recover = bool_a recov;
@@ -283,6 +289,7 @@ let () =
   Arg.parse [ ("-tables", Arg.Set_string tables, "unicode tables file");
               ("-cases", Arg.Set_string cases, "case file");
               ("-decode", Arg.Set_string dec, "file of hex strings: print decode results");
+              ("-quirks", Arg.String set_quirks, "4 bits: lit_eof stale_ctx recover_scope memo_nocharge (default 1111 = faithful)");
               ("-fuel", Arg.Set_int fuel, "fuel") ] (fun _ -> ()) "driver";
   if !dec <> "" then (decode_mode !dec; exit 0);
   if !tables <> "" then load_tables !tables;
